@@ -122,10 +122,8 @@ def _rt_records(t):
         yield from t.harness(*t.args)
         # frame condition over state that outlives every call: the whole run-time harness (many calls, many models) must leave no module-level or
         # class-level container of the library changed (modules imported during the run are compared from their import state: new non-empty containers count)
-        ch = [c for c in _frame.changes(before, _frame.snapshot(mods())) if ' appeared ' not in c or c.split('.')[0] in {k[0].split('.')[0] for k in before}]
-        known_at_import = _frame.snapshot(mods())
-        yield dict(name='rt:frame:no-module-level-or-class-level-state-of-the-library-is-left-behind', ok=not [c for c in ch if ' changed: ' in c], witness=dict(task=t.name),
-                   detail='; '.join(ch)[:800])
+        ch = [c for c in _frame.changes(before, _frame.snapshot(mods())) if ' changed: ' in c]      # containers of modules first imported during the run are not judged
+        yield dict(name='rt:frame:no-module-level-or-class-level-state-of-the-library-is-left-behind', ok=not ch, witness=dict(task=t.name), detail='; '.join(ch)[:800])
     except (S.Unsupported, _TaskTimeout, KeyboardInterrupt, MemoryError):
         raise
     except Exception as e:
